@@ -175,37 +175,22 @@ theorem C20_trie_in_step (evs : List Ev) (hok : Ok {} evs = true) :
       HeldRel store (evs.foldl (fun s ev => (Mqtt.Spec.Client.step s ev).1) {}).held :=
   (run_sim evs init {} R_init hok).2.trie
 
-/-- The statement of the property: after the SUBACK of a Subscribe has been
-processed, a delivered message invokes that request's callback exactly once if
-its topic matches one of the granted filters and not at all otherwise. -/
-def C20_dispatch_full : Prop :=
-  ∀ (c : C) (store : List Sub) (r : Req) (rest : Queue) (codes : List Nat) (p : Pub),
-    c.connected = true → TI c.topics store → c.suback = r :: rest → (∀ e ∈ rest, e.id ≠ r.id) →
-    (∀ e, rest.head? = some e → terminal e.state = false) → r.topics.length = codes.length →
-    (∀ t ∈ r.topics, good t.1 = true) → (∀ e ∈ store, e.sub ≠ r.cb) →
-    good p.topic = true → validName p.topic = true → p.qos ≤ 2 →
-    (deliveriesTo r.cb (onPublish (step c (.peer (.suback r.id codes))).1 p)).length =
-      if (grantedOf (r.topics.zip codes)).any (fun f => topicMatches f p.topic) then 1 else 0
-
-/-- **C20, dispatch (the part that holds).**  Let the oldest outstanding
-Subscribe `r` of a connected client (trie in step with `store`, `r`'s callback
-not yet registered anywhere, `r`'s filters without empty levels and not beginning with `$`) be
-acknowledged by a SUBACK with one return code per filter.  Then for every
-message `p` (valid topic name without empty levels, not beginning with `$`, QoS <= 2) for
-which at most one of the granted filters of `r` matches - the recorded
-exclusion E9: filters of one request that overlap on this topic - the dispatch
-of `p` invokes `r`'s callback exactly once if a granted filter matches the
-topic (section 4.7 matching, `Spec.Match.topicMatches`) and not at all
+/-- **C20, dispatch.**  Let the oldest outstanding Subscribe `r` of a connected
+client (trie in step with `store`, `r`'s callback not yet registered anywhere,
+`r`'s filters without empty levels and not beginning with `$`) be acknowledged
+by a SUBACK with one return code per filter.  Then for every message `p`
+(valid topic name without empty levels, not beginning with `$`, QoS <= 2) the
+dispatch of `p` invokes `r`'s callback exactly once if a granted filter
+matches the topic (section 4.7 matching, `Spec.Match.topicMatches`) -
+*however many* of the request's granted filters match it - and not at all
 otherwise; every message handed over has `p`'s topic and payload.  For QoS 0
 and QoS 1 the dispatch happens in the step that receives the PUBLISH. -/
-theorem C20_dispatch_partial (c : C) (store : List Sub) (r : Req) (rest : Queue) (codes : List Nat) (p : Pub)
+theorem C20_dispatch (c : C) (store : List Sub) (r : Req) (rest : Queue) (codes : List Nat) (p : Pub)
     (hc : c.connected = true) (hti : TI c.topics store) (hq : c.suback = r :: rest)
     (hid : ∀ e ∈ rest, e.id ≠ r.id) (hh : ∀ e, rest.head? = some e → terminal e.state = false)
     (hlen : r.topics.length = codes.length) (hgood : ∀ t ∈ r.topics, good t.1 = true)
     (hfresh : ∀ e ∈ store, e.sub ≠ r.cb)
-    (hgp : good p.topic = true) (hn : validName p.topic = true) (hq2 : p.qos ≤ 2)
-    (hno : ∀ f ∈ grantedOf (r.topics.zip codes), ∀ g ∈ grantedOf (r.topics.zip codes),
-      topicMatches f p.topic = true → topicMatches g p.topic = true → f = g) :
+    (hgp : good p.topic = true) (hn : validName p.topic = true) (hq2 : p.qos ≤ 2) :
     (deliveriesTo r.cb (onPublish (step c (.peer (.suback r.id codes))).1 p)).length =
       (if (grantedOf (r.topics.zip codes)).any (fun f => topicMatches f p.topic) then 1 else 0) ∧
     (∀ m ∈ deliveriesTo r.cb (onPublish (step c (.peer (.suback r.id codes))).1 p),
@@ -235,8 +220,6 @@ theorem C20_dispatch_partial (c : C) (store : List Sub) (r : Req) (rest : Queue)
         rintro ⟨e, he, hs, _⟩
         exact hfresh e he hs
       simp [this]
-    rw [length_filter_unique _ _ (heldBy_nodup _ _ hti'.nodup)
-      (fun a ha b hb => hno a ((hmem a).mp ha) b ((hmem b).mp hb))]
     have : (heldBy r.cb (grantStore r.cb store (r.topics.zip codes))).any (fun f => topicMatches f p.topic) =
         (grantedOf (r.topics.zip codes)).any (fun f => topicMatches f p.topic) := by
       rw [Bool.eq_iff_iff, List.any_eq_true, List.any_eq_true]
@@ -247,22 +230,19 @@ theorem C20_dispatch_partial (c : C) (store : List Sub) (r : Req) (rest : Queue)
   · intro h1
     simp [peer, h1]
 
-/-- … and for QoS 2 at its PUBREL: under the hypotheses of
-`C20_dispatch_partial`, a whole inbound QoS 2 exchange after the SUBACK - the
-PUBLISH, any number of repeated PUBLISHes with its identifier, the PUBREL, with
-no other inbound exchange open - invokes the request's callback, over all its
-steps together, exactly once if a granted filter matches and not at all
-otherwise. -/
-theorem C20_dispatch_qos2_partial (c : C) (store : List Sub) (r : Req) (rest : Queue) (codes : List Nat) (p : Pub)
+/-- … and for QoS 2 at its PUBREL: under the hypotheses of `C20_dispatch`, a
+whole inbound QoS 2 exchange after the SUBACK - the PUBLISH, any number of
+repeated PUBLISHes with its identifier, the PUBREL, with no other inbound
+exchange open - invokes the request's callback, over all its steps together,
+exactly once if a granted filter matches and not at all otherwise. -/
+theorem C20_dispatch_qos2 (c : C) (store : List Sub) (r : Req) (rest : Queue) (codes : List Nat) (p : Pub)
     (dups : List Pub)
     (hc : c.connected = true) (hti : TI c.topics store) (hq : c.suback = r :: rest)
     (hid : ∀ e ∈ rest, e.id ≠ r.id) (hh : ∀ e, rest.head? = some e → terminal e.state = false)
     (hlen : r.topics.length = codes.length) (hgood : ∀ t ∈ r.topics, good t.1 = true)
     (hfresh : ∀ e ∈ store, e.sub ≠ r.cb)
     (hgp : good p.topic = true) (hn : validName p.topic = true) (hq2 : p.qos = 2)
-    (hin : c.pub2in = []) (hd : ∀ d ∈ dups, d.qos = 2 ∧ d.pktid = p.pktid)
-    (hno : ∀ f ∈ grantedOf (r.topics.zip codes), ∀ g ∈ grantedOf (r.topics.zip codes),
-      topicMatches f p.topic = true → topicMatches g p.topic = true → f = g) :
+    (hin : c.pub2in = []) (hd : ∀ d ∈ dups, d.qos = 2 ∧ d.pktid = p.pktid) :
     (deliveriesTo r.cb (runOuts (step c (.peer (.suback r.id codes))).1
       (.peer (.publish p) :: dups.map (fun d => Ev.peer (.publish d)) ++ [.peer (.pubrel p.pktid)])).flatten).length =
       (if (grantedOf (r.topics.zip codes)).any (fun f => topicMatches f p.topic) then 1 else 0) := by
@@ -273,40 +253,65 @@ theorem C20_dispatch_qos2_partial (c : C) (store : List Sub) (r : Req) (rest : Q
     rw [(foldDone_frame subscribeDone subscribeDone_frame _ _).pub2in]
     exact hin
   rw [(C20_qos2_duplicates_suppressed _ hc' hin' p hq2 dups hd).1, deliveriesTo_exchange]
-  exact (C20_dispatch_partial c store r rest codes p hc hti hq hid hh hlen hgood hfresh hgp hn (by omega) hno).1
+  exact (C20_dispatch c store r rest codes p hc hti hq hid hh hlen hgood hfresh hgp hn (by omega)).1
 
-/-- The exclusion in its static form: if the granted filters of the request are
-pairwise non-overlapping (`nonOverlapping`, a decidable check on the filters
-alone: two filters overlap when, level by level, they can agree on some name;
-`overlap_sound`), the conclusion of `C20_dispatch_partial` holds for *every*
-message. -/
-theorem C20_dispatch_nonoverlapping (c : C) (store : List Sub) (r : Req) (rest : Queue) (codes : List Nat)
-    (hc : c.connected = true) (hti : TI c.topics store) (hq : c.suback = r :: rest)
+/-- **Overlapping filters of one request: exactly one invocation per delivered
+message.**  Under the hypotheses of `C20_dispatch`, if two *different* granted
+filters of the request both match the topic of `p` (`a/+` and `a/b` for `a/b`),
+the callback is still invoked exactly once.  (Before the repair of E9 the
+callback, registered once per filter, was invoked once per matching filter.) -/
+theorem C20_dispatch_overlapping_once (c : C) (store : List Sub) (r : Req) (rest : Queue) (codes : List Nat)
+    (p : Pub) (hc : c.connected = true) (hti : TI c.topics store) (hq : c.suback = r :: rest)
     (hid : ∀ e ∈ rest, e.id ≠ r.id) (hh : ∀ e, rest.head? = some e → terminal e.state = false)
     (hlen : r.topics.length = codes.length) (hgood : ∀ t ∈ r.topics, good t.1 = true)
     (hfresh : ∀ e ∈ store, e.sub ≠ r.cb)
-    (hno : nonOverlapping (grantedOf (r.topics.zip codes)) = true)
-    (p : Pub) (hgp : good p.topic = true) (hn : validName p.topic = true) (hq2 : p.qos ≤ 2) :
-    (deliveriesTo r.cb (onPublish (step c (.peer (.suback r.id codes))).1 p)).length =
-      (if (grantedOf (r.topics.zip codes)).any (fun f => topicMatches f p.topic) then 1 else 0) :=
-  (C20_dispatch_partial c store r rest codes p hc hti hq hid hh hlen hgood hfresh hgp hn hq2
-    (nonOverlapping_unique _ hno p.topic)).1
+    (hgp : good p.topic = true) (hn : validName p.topic = true) (hq2 : p.qos ≤ 2)
+    (f g : Bytes) (hf : f ∈ grantedOf (r.topics.zip codes)) (_hg : g ∈ grantedOf (r.topics.zip codes))
+    (_hne : f ≠ g) (hmf : topicMatches f p.topic = true) (_hmg : topicMatches g p.topic = true) :
+    (deliveriesTo r.cb (onPublish (step c (.peer (.suback r.id codes))).1 p)).length = 1 := by
+  rw [(C20_dispatch c store r rest codes p hc hti hq hid hh hlen hgood hfresh hgp hn hq2).1]
+  have : (grantedOf (r.topics.zip codes)).any (fun f => topicMatches f p.topic) = true :=
+    List.any_eq_true.mpr ⟨f, hf, hmf⟩
+  simp [this]
 
-example : nonOverlapping [[97, 47, 43], [98], [99, 47, 35]] = true ∧
-    nonOverlapping [[97, 47, 43], [97, 47, 98]] = false ∧ overlap [97, 47, 35] [97] = true ∧
-    overlap [43, 47, 98] [97, 47, 43] = true ∧ overlap [97, 47, 98] [97, 47, 99] = false := by decide
+/-- Which QoS the one invocation carries (the property does not say; the code
+is deterministic about it): in every state whose trie is in step with `store`,
+a message handed to callback `cb` carries at least `min (its QoS) (granted
+QoS)` of *every* entry of `cb` whose filter matches - the highest QoS the
+matching filters of the request allow, whatever order the trie walk (a Go map
+iteration) yields them in. -/
+theorem C20_dispatch_highest_qos (c : C) (store : List Sub) (hti : TI c.topics store) (p : Pub)
+    (hgp : good p.topic = true) (hn : validName p.topic = true) (hq2 : p.qos ≤ 2) (cb : Nat) :
+    ∀ m ∈ deliveriesTo cb (onPublish c p), ∀ e ∈ store, e.sub = cb → topicMatches e.filter p.topic = true →
+      min p.qos e.qos ≤ m.qos :=
+  deliveries_qos_max c store hti p hgp hn hq2 cb
 
-/-- It is false of the code as it is (finding E9): a request with the filters
-`a/+` and `a/b` registers its callback at two trie nodes; one delivered `a/b`
-invokes it twice. -/
-theorem C20_dispatch_counterexample : ¬ C20_dispatch_full := by
-  intro h
-  have := h (runState init [.connect (.connack false 0), .api (.subscribe 1 [([97, 47, 43], 1), ([97, 47, 98], 1)] 5 9)])
-    [] { id := 1, tag := 5, topics := [([97, 47, 43], 1), ([97, 47, 98], 1)], cb := 9 } [] [1, 1]
-    { qos := 0, topic := [97, 47, 98], payload := [7] }
+/-- the request `a/+`, `a/b` (callback 9) and a second request `a/#` (callback 4): one delivered
+`a/b` invokes callback 9 once (with the higher QoS of its two matching filters) and callback 4 once -/
+def demoO : List Ev :=
+  [.connect (.connack false 0),
+   .api (.subscribe 1 [([97, 47, 43], 1), ([97, 47, 98], 0)] 5 9),
+   .peer (.suback 1 [1, 0]),
+   .api (.subscribe 2 [([97, 47, 35], 1)] 6 4),
+   .peer (.suback 2 [1]),
+   .peer (.publish { qos := 1, topic := [97, 47, 98], pktid := 100, payload := [7] }),
+   .peer (.publish { qos := 0, topic := [97, 47, 99], payload := [8] })]
+
+example :
+    ((runOuts init demoO).drop 5).map (fun o => ((deliveriesTo 9 o).map (·.qos), (deliveriesTo 4 o).map (·.qos), o.length)) =
+      [([1], [1], 3), ([0], [0], 2)] := by
+  decide
+
+/-- the hypotheses of `C20_dispatch_overlapping_once` are met by the first request of `demoO` -/
+example :
+    let c := runState init [.connect (.connack false 0), .api (.subscribe 1 [([97, 47, 43], 1), ([97, 47, 98], 1)] 5 9)]
+    (deliveriesTo 9 (onPublish (step c (.peer (.suback 1 [1, 1]))).1
+      { qos := 0, topic := [97, 47, 98], payload := [7] })).length = 1 := by
+  intro c
+  exact C20_dispatch_overlapping_once c [] { id := 1, tag := 5, topics := [([97, 47, 43], 1), ([97, 47, 98], 1)], cb := 9 }
+    [] [1, 1] { qos := 0, topic := [97, 47, 98], payload := [7] }
     (by decide) ti_new rfl (by simp) (by simp) (by decide) (by decide) (by simp) (by decide) (by decide)
-    (by decide)
-  exact absurd this (by decide)
+    (by decide) [97, 47, 43] [97, 47, 98] (by decide) (by decide) (by decide) (by decide) (by decide)
 
 /-- a second subscriber's request (callback 9: `a/+` at QoS 1, `b`, and `c/#` refused by the
 server) completes on a client that already holds callback 3 for `#`; messages on `a/b`, `b`, `c/d` -/
@@ -330,7 +335,7 @@ example : (runOuts init demoG).drop 4 =
     grantedOf ([(([97, 47, 43] : Bytes), 1), ([98], 2), ([99, 47, 35], 1)].zip [1, 2, 128]) = [[97, 47, 43], [98]] := by
   decide
 
-/-- the hypotheses of `C20_dispatch_partial` are met: the request of `demoG` on a fresh connected
+/-- the hypotheses of `C20_dispatch` are met: the request of `demoG` on a fresh connected
 client, message `a/b` (one granted filter matches) and message `c/d` (only the refused filter would) -/
 example :
     let c := runState init [.connect (.connack false 0),
@@ -340,13 +345,13 @@ example :
     (deliveriesTo 9 (onPublish (step c (.peer (.suback 2 [1, 2, 128]))).1
       { qos := 0, topic := [99, 47, 100], payload := [3] })).length = 0 := by
   intro c
-  have h1 := (C20_dispatch_partial c [] { id := 2, tag := 5, topics := [([97, 47, 43], 1), ([98], 2), ([99, 47, 35], 1)], cb := 9 }
+  have h1 := (C20_dispatch c [] { id := 2, tag := 5, topics := [([97, 47, 43], 1), ([98], 2), ([99, 47, 35], 1)], cb := 9 }
     [] [1, 2, 128] { qos := 1, topic := [97, 47, 98], pktid := 100, payload := [1] }
-    (by decide) ti_new rfl (by simp) (by simp) (by decide) (by decide) (by simp) (by decide) (by decide) (by decide)
+    (by decide) ti_new rfl (by simp) (by simp) (by decide) (by decide) (by simp) (by decide) (by decide)
     (by decide)).1
-  have h2 := (C20_dispatch_partial c [] { id := 2, tag := 5, topics := [([97, 47, 43], 1), ([98], 2), ([99, 47, 35], 1)], cb := 9 }
+  have h2 := (C20_dispatch c [] { id := 2, tag := 5, topics := [([97, 47, 43], 1), ([98], 2), ([99, 47, 35], 1)], cb := 9 }
     [] [1, 2, 128] { qos := 0, topic := [99, 47, 100], payload := [3] }
-    (by decide) ti_new rfl (by simp) (by simp) (by decide) (by decide) (by simp) (by decide) (by decide) (by decide)
+    (by decide) ti_new rfl (by simp) (by simp) (by decide) (by decide) (by simp) (by decide) (by decide)
     (by decide)).1
   exact ⟨h1, h2⟩
 
@@ -359,9 +364,9 @@ exactly the entries of `store` whose filter is not listed in `r` - every
 callback registered under exactly a listed filter is removed
 (`C06_sremove_refines`, "remove all" mode), entries under other filters are
 untouched - and for every later message `p` and every callback `cb`, `cb` is
-invoked once per *unlisted* filter it is still held under that matches `p`.
-In particular a callback held only under listed filters is never invoked
-again. -/
+invoked exactly once if an *unlisted* filter it is still held under matches
+`p`, and not at all otherwise.  In particular a callback held only under listed
+filters is never invoked again. -/
 theorem C20_unsubscribe_stops (c : C) (store : List Sub) (r : Req) (rest : Queue) (p : Pub)
     (hc : c.connected = true) (hti : TI c.topics store) (hq : c.unsuback = r :: rest)
     (hid : ∀ e ∈ rest, e.id ≠ r.id) (hh : ∀ e, rest.head? = some e → terminal e.state = false)
@@ -370,7 +375,7 @@ theorem C20_unsubscribe_stops (c : C) (store : List Sub) (r : Req) (rest : Queue
     TI (step c (.peer (.unsuback r.id))).1.topics
       (store.filter (fun e => !(r.topics.map (·.1)).contains e.filter)) ∧
     (∀ cb, (deliveriesTo cb (onPublish (step c (.peer (.unsuback r.id))).1 p)).length =
-      ((heldBy cb store).filter (fun f => !(r.topics.map (·.1)).contains f && topicMatches f p.topic)).length) ∧
+      (if (heldBy cb store).any (fun f => !(r.topics.map (·.1)).contains f && topicMatches f p.topic) then 1 else 0)) ∧
     (∀ cb, (∀ f ∈ heldBy cb store, f ∈ r.topics.map (·.1)) →
       deliveriesTo cb (onPublish (step c (.peer (.unsuback r.id))).1 p) = []) := by
   rw [step_peer c hc, peer_unsuback_head c r rest hq hid hh]
@@ -379,19 +384,15 @@ theorem C20_unsubscribe_stops (c : C) (store : List Sub) (r : Req) (rest : Queue
   simp only [dropStore_eq] at hti'
   have hcount : ∀ cb, (deliveriesTo cb (onPublish (unsubscribeDone { c with unsuback := rest }
       { r with state := Mqtt.Generated.tUNSUBACK, codes := [] }).1 p)).length =
-      ((heldBy cb store).filter (fun f => !(r.topics.map (·.1)).contains f && topicMatches f p.topic)).length := by
+      (if (heldBy cb store).any (fun f => !(r.topics.map (·.1)).contains f && topicMatches f p.topic) then 1 else 0) := by
     intro cb
     rw [(deliveries_count _ _ hti' p hgp hn hq2 cb).1,
-      heldBy_filter cb store (fun f => !(r.topics.map (·.1)).contains f), List.filter_filter]
-    congr 1
-    apply List.filter_congr
-    intro f _
-    exact Bool.and_comm _ _
+      heldBy_filter cb store (fun f => !(r.topics.map (·.1)).contains f), List.any_filter]
   refine ⟨hti', hcount, ?_⟩
   intro cb hall
   have h0 := hcount cb
-  have : (heldBy cb store).filter (fun f => !(r.topics.map (·.1)).contains f && topicMatches f p.topic) = [] := by
-    rw [List.filter_eq_nil_iff]
+  have : (heldBy cb store).any (fun f => !(r.topics.map (·.1)).contains f && topicMatches f p.topic) = false := by
+    rw [List.any_eq_false]
     intro f hf
     have hc1 : (r.topics.map (·.1)).contains f = true := List.contains_iff_mem.mpr (hall f hf)
     rw [hc1]; simp
